@@ -56,3 +56,83 @@ func isFieldOf(v ssa.Value, field string) bool {
 }
 
 type tokenPos = token.Pos
+
+type viaPred = func(in ssa.Instruction, cc *ssa.CallCommon) bool
+type targetFn = func(in ssa.Instruction, pred *ssa.BasicBlock) bool
+type pruneFn = func(b *ssa.BasicBlock, succ int) bool
+
+// mustPassChecked records the obligation "every path of fn from `from` (entry when nil) to a
+// target passes a call accepted by via whose error result was nil".
+func mustPassChecked(c *core.Ctx, fn *ssa.Function, rule, construct string, from ssa.Instruction, via viaPred, target targetFn, prune pruneFn, what string) bool {
+	cv := core.NewCheckedVia(fn, via)
+	c.Sites += len(cv.Calls)
+	if len(cv.Calls) == 0 {
+		c.Fail(rule, construct, fn.Pos(), fmt.Sprintf("%s: no such call in %s", what, fname(fn)))
+		return false
+	}
+	for _, u := range cv.Unhandled {
+		c.Fail(rule, construct, u.Pos(), fmt.Sprintf("%s: the error result of the call is neither tested against nil nor returned", what))
+		return false
+	}
+	q := core.PathQ{Fn: fn, From: from, Via: cv.Via, ViaEdge: cv.ViaEdge, Prune: prune, Target: cv.WrapTarget(target)}
+	esc, path := q.Escape()
+	if esc != nil {
+		c.Fail(rule, construct, esc.Pos(), fmt.Sprintf("%s: the exit at %s is reachable without it (path %s)", what, c.P.Pos(esc.Pos()), c.P.PathString(path)))
+		return false
+	}
+	c.Pass(rule, construct, fn.Pos(), what+": holds on every path")
+	return true
+}
+
+// mustPass is the unchecked variant (events without an error result, or where the error is irrelevant).
+func mustPass(c *core.Ctx, fn *ssa.Function, rule, construct string, from ssa.Instruction, via func(ssa.Instruction) bool, target targetFn, prune pruneFn, what string) bool {
+	n := 0
+	core.Instrs(fn, func(in ssa.Instruction) {
+		if via(in) {
+			n++
+		}
+	})
+	c.Sites += n
+	if n == 0 {
+		c.Fail(rule, construct, fn.Pos(), fmt.Sprintf("%s: no such event in %s", what, fname(fn)))
+		return false
+	}
+	q := core.PathQ{Fn: fn, From: from, Via: via, Prune: prune, Target: target}
+	esc, path := q.Escape()
+	if esc != nil {
+		c.Fail(rule, construct, esc.Pos(), fmt.Sprintf("%s: the exit at %s is reachable without it (path %s)", what, c.P.Pos(esc.Pos()), c.P.PathString(path)))
+		return false
+	}
+	c.Pass(rule, construct, fn.Pos(), what+": holds on every path")
+	return true
+}
+
+// isRecvField reports whether v is a load of field `name` of the function's receiver
+// (through embedded structs).
+func isRecvField(fn *ssa.Function, v ssa.Value, name string) bool {
+	base, f := core.FieldLoad(v)
+	if f == nil || f.Name() != name {
+		return false
+	}
+	r := receiverOf(fn)
+	return r != nil && rootBase(base) == ssa.Value(r)
+}
+
+// loopComplete checks that the loop leaves only through its header (range exhaustion) or
+// through definite error returns; returns a description of the offending exit otherwise.
+func loopComplete(c *core.Ctx, l *core.Loop, allow func(e core.Exit) bool) string {
+	for _, e := range l.Exits() {
+		if e.From == l.Header {
+			continue
+		}
+		to := e.From.Succs[e.Succ]
+		if core.OnlyErrorReturnsFrom(to, e.From, l) {
+			continue
+		}
+		if allow != nil && allow(e) {
+			continue
+		}
+		return fmt.Sprintf("early exit from the loop at b%d→b%d (%s)", e.From.Index, to.Index, c.P.Pos(firstPos(to)))
+	}
+	return ""
+}
